@@ -33,6 +33,10 @@ structure RS where
   workers : List (Nat × WS) := []
   cancelBegun : Bool := false
   cancelEnded : Bool := false
+  /-- per-job contexts (the scheduler API takes a context per Enqueue; model: `Cfg.ctxOf`): jobs whose
+      OWN context was cancelled (`X cancel-begin j<id>`); Wait's context is the global flag above -/
+  ownCancelBegun : List Nat := []
+  ownCancelEnded : List Nat := []
   recvAfterCancel : List Nat := []    -- jobs whose recv line came after cancel-end
   dispatched : List Nat := []
   received : List Nat := []
@@ -151,11 +155,11 @@ def workerLine (s : RS) (w : Nat) (what : String) (j : Nat) (cls : String) : RS 
     let s := if st != .idle then s.div "worker.two-jobs" s!"worker {w} received {j} while {repr st}" else s
     let s := if s.received.contains j then s.div "xcheck.double-receive" s!"job {j}" else s
     let s := { s with received := j :: s.received,
-                      recvAfterCancel := if s.cancelEnded then j :: s.recvAfterCancel else s.recvAfterCancel }
+                      recvAfterCancel := if s.cancelEnded || s.ownCancelEnded.contains j then j :: s.recvAfterCancel else s.recvAfterCancel }
     setW s w (.holding j)
   | "skipctx" =>
     let s := if st != .holding j then s.div "worker.order" s!"worker {w} skipctx {j} in {repr st}" else s
-    let s := if !s.cancelBegun && s.cfg.wiring.workerChecksCtx then s.div "worker.decision" s!"job {j} skipped for ctx without cancellation" else s
+    let s := if !s.cancelBegun && !s.ownCancelBegun.contains j && s.cfg.wiring.workerChecksCtx then s.div "worker.decision" s!"job {j} skipped for ctx without cancellation" else s
     setW s w (.finished j .ctxErr)
   | "skipinvalid" =>
     let s := if st != .holding j then s.div "worker.order" s!"worker {w} skipinvalid {j} in {repr st}" else s
@@ -249,6 +253,14 @@ def line (s : RS) (t : List String) : RS :=
   | "C" :: rest => callerLine s rest
   | ["X", "cancel-begin"] => { s with cancelBegun := true }
   | ["X", "cancel-end"] => { s with cancelEnded := true }
+  | ["X", "cancel-begin", jid] =>
+    match (jid.drop 1).toNat? with
+    | some j => { s with ownCancelBegun := j :: s.ownCancelBegun }
+    | none => s
+  | ["X", "cancel-end", jid] =>
+    match (jid.drop 1).toNat? with
+    | some j => { s with ownCancelEnded := j :: s.ownCancelEnded }
+    | none => s
   | _ => s.div "trace.parse" s!"{t}"
 
 /-- Pre-pass: the dependency table from the caller's `send` lines. -/
